@@ -628,6 +628,7 @@ func TestHonestCompiled(t *testing.T) {
 	g := genHonest(curveNames, []string{prog.R1CS, prog.SCS})
 	rec.Check(t, "honest", ev.N(3000, 240000), func(rt *rapid.T) {
 		c := g.Draw(rt, "case")
+		rec.Begin("honest", c)
 		rec.Report(rt, "honest", c, run(c))
 	})
 }
@@ -637,6 +638,7 @@ func TestHonestEngine(t *testing.T) {
 	g := genHonest(curveNames, []string{"engine"})
 	rec.Check(t, "honest", ev.N(1500, 100000), func(rt *rapid.T) {
 		c := g.Draw(rt, "case")
+		rec.Begin("honest", c)
 		rec.Report(rt, "honest", c, run(c))
 	})
 }
@@ -646,6 +648,7 @@ func TestHonestPlainF47(t *testing.T) {
 	g := genHonest([]string{"f47"}, []string{prog.R1CS, prog.SCS, "engine"})
 	rec.Check(t, "honest", ev.N(400, 60000), func(rt *rapid.T) {
 		c := g.Draw(rt, "case")
+		rec.Begin("honest", c)
 		rec.Report(rt, "honest", c, run(c))
 	})
 }
@@ -719,6 +722,7 @@ func TestAdversary(t *testing.T) {
 	g := genAdv()
 	rec.Check(t, "adv", ev.N(2500, 160000), func(rt *rapid.T) {
 		c := g.Draw(rt, "case")
+		rec.Begin("adv", c)
 		rec.Report(rt, "adv", c, runAdv(c))
 	})
 }
@@ -728,6 +732,7 @@ func TestSharedCommitment(t *testing.T) {
 	g := genShared()
 	rec.Check(t, "shared", ev.N(1000, 60000), func(rt *rapid.T) {
 		c := g.Draw(rt, "case")
+		rec.Begin("shared", c)
 		rec.Report(rt, "shared", c, runShared(c))
 	})
 }
